@@ -76,8 +76,10 @@ func (c LabelCheck) Check(_ context.Context, entry discovery.Entry, _ []discover
 
 func (c LabelCheck) checkRecordingRule(entry discovery.Entry) (problems []Problem) {
 	entryLabels := entry.Labels()
+	val := entryLabels.GetValue(c.keyRe.original)
 
-	if len(entryLabels.Items) == 0 {
+	// No labels at all, or labels set only on the group: there is no `labels` key on the rule to point at.
+	if len(entryLabels.Items) == 0 || (entry.Rule.RecordingRule.Labels == nil && (val == nil || val.Value == "")) {
 		if c.isRequired {
 			problems = append(problems, Problem{
 				Anchor:   AnchorAfter,
@@ -94,7 +96,6 @@ func (c LabelCheck) checkRecordingRule(entry discovery.Entry) (problems []Proble
 		return problems
 	}
 
-	val := entryLabels.GetValue(c.keyRe.original)
 	if val == nil || val.Value == "" {
 		if c.isRequired {
 			problems = append(problems, Problem{
